@@ -116,10 +116,10 @@ CLAIMED = {
              "race detector with a scripted reader (chunkings, data returned together with EOF), 1-4 consumers of capacity "
              "0/1/8, slow consumers, nil entries, GOMAXPROCS 1/2/4/16; each consumer's (type, raw) sequence compared with "
              "the extracted model's sequential framing; return value, leaked goroutines, panics.",
-        note=CORR + "Partial: Go's unbuffered channels are modelled with capacity 1 (every rendezvous execution is a capacity-1 "
-             "execution in which the receive follows the send at once, so delivered sequences are covered; absence of deadlock "
-             "under pure rendezvous and data-race freedom are the race-detector oracle's verdict on sampled schedules, not "
-             "theorems). The test-only stop message is not modelled.", design="5/C09",
+        note=CORR + "Unbuffered channels are modelled faithfully (two-phase send on a one-slot channel: put, then wait until "
+             "the value has been taken; any subset of the channels may be unbuffered, the rest have any capacity >= 1), so "
+             "termination and absence of deadlock are theorems for the Go channel semantics. Partial: data-race freedom is "
+             "the race-detector oracle's verdict on sampled schedules. The test-only stop message is not modelled.", design="5/C09",
         technique="Coq proof (Kahn-network determinacy: diamond + canonical schedule) + race-detector pipeline oracle"),
     "C10": dict(
         text="Theorems C10_any_input / C10_segments / C10_every_schedule (axiom-free): the writer goroutines' filter (skip type "
@@ -133,7 +133,7 @@ CLAIMED = {
              "Correspondence: the real HandleMessages of rtcmfilter (go test -overlay) on mixed/hostile/segment streams, all "
              "display/record switch settings, chunkings and writer latencies; output, record file and number of display "
              "entries compared with the extracted model and the valid_frame specification.",
-        note=CORR + "Partial as C09 (capacity-1 abstraction of unbuffered channels). The dailylogger writers and the text of "
+        note=CORR + "Channels as in C09 (buffered or unbuffered). The dailylogger writers and the text of "
              "display entries are outside the model (entry count only).", design="5/C10",
         technique="Coq proof (framing theorems C01-C03 + filter lemma + network determinacy) + application-level correspondence"),
     "C11": dict(
@@ -146,7 +146,7 @@ CLAIMED = {
              "(main: send every message on a bounded channel, close it, wait for the writer iff the generated fact waits_<app> "
              "says the source does, return; writer: receive, hold the message for an arbitrary latency, write, signal at close) "
              "under the interleaving semantics of Net.v: in EVERY reachable configuration of EVERY schedule, for every channel "
-             "capacity >= 1, writer latency and message list, 'main has returned' implies 'the writer has written exactly the "
+             "capacity >= 1 whether buffered or unbuffered, writer latency and message list, 'main has returned' implies 'the writer has written exactly the "
              "messages in order'; every final configuration has both processes finished (no deadlock). The wait flag is "
              "regenerated from the source on every run by genfacts (a bounded or missing wait gives false and the theorem no longer "
              "builds); C11_unrepaired_witness exhibits the losing schedule for the code before its repair. Oracle: the real "
@@ -227,7 +227,7 @@ CLAIMED = {
              "malformed CRC-valid, hostile, text) over loopback in both directions, with three status pollers running during "
              "the sessions, and must deliver byte-identical data.",
         note=CORR + "Partial: TCP/TLS/statusreporter are the runtime; one client session at a time; the relay theorem assumes the "
-             "parser process keeps running (no panic: C07) and models the unbuffered byte channel with capacity 1; the "
+             "parser process keeps running (no panic: C07); the byte and message channels may be unbuffered or buffered; the "
              "server-to-client loop has no parser and is covered by the loopback oracle only.",
         design="5/C19", technique="Coq proof (relay network determinacy; sanitiser) + in-process page dissection + loopback relay differential with concurrent status polling"),
     "C20": dict(
